@@ -1,0 +1,165 @@
+/*
+ * Atree - Scalable Arrays and Ordered Maps
+ *
+ * Copyright Flow Foundation
+ *
+ * Licensed under the Apache License, Version 2.0 (the "License");
+ * you may not use this file except in compliance with the License.
+ * You may obtain a copy of the License at
+ *
+ *   http://www.apache.org/licenses/LICENSE-2.0
+ *
+ * Unless required by applicable law or agreed to in writing, software
+ * distributed under the License is distributed on an "AS IS" BASIS,
+ * WITHOUT WARRANTIES OR CONDITIONS OF ANY KIND, either express or implied.
+ * See the License for the specific language governing permissions and
+ * limitations under the License.
+ */
+
+//go:build verif
+
+package atree
+
+//@ # ---------------------------------------------------------------- C19 safety sweep over the decoders: no functional contract, only the
+//@ # safety obligations the verifier generates by itself (index / slice bounds, nil dereference, conversions, type assertions,
+//@ # unreachable panics). Library calls (CBOR stream decoder, caller-supplied decoders) return unconstrained values of their type.
+
+//@ # caller-supplied decoders allocate and return values; they do not write atree-internal state (A2)
+//@ functype StorableDecoder(dec, id, inlinedExtraData) (s, err)
+//@   modifies alloc
+
+//@ functype TypeInfoDecoder(dec) (t, err)
+//@   modifies alloc
+
+//@ func DecodeSlab@safety  serves C19
+//@   option assume-nonnil-params true
+//@   modifies heap
+
+//@ func newArrayDataSlabFromData  serves C19
+//@   option assume-nonnil-params true
+//@   modifies heap
+
+//@ func newArrayDataSlabFromDataV0  serves C19
+//@   option assume-nonnil-params true
+//@   modifies heap
+
+//@ func newArrayDataSlabFromDataV1  serves C19
+//@   option assume-nonnil-params true
+//@   modifies heap
+
+//@ func DecodeInlinedArrayStorable  serves C19
+//@   option assume-nonnil-params true
+//@   modifies heap
+
+//@ func newArrayMetaDataSlabFromData  serves C19
+//@   option assume-nonnil-params true
+//@   modifies heap
+
+//@ func newArrayMetaDataSlabFromDataV0  serves C19
+//@   option assume-nonnil-params true
+//@   modifies heap
+
+//@ func newMapDataSlabFromData  serves C19
+//@   option assume-nonnil-params true
+//@   modifies heap
+
+//@ func newMapDataSlabFromDataV0  serves C19
+//@   option assume-nonnil-params true
+//@   modifies heap
+
+//@ func newMapDataSlabFromDataV1  serves C19
+//@   option assume-nonnil-params true
+//@   modifies heap
+
+//@ func DecodeInlinedCompactMapStorable  serves C19
+//@   option assume-nonnil-params true
+//@   modifies heap
+
+//@ func DecodeInlinedMapStorable  serves C19
+//@   option assume-nonnil-params true
+//@   modifies heap
+
+//@ func newMapMetaDataSlabFromData  serves C19
+//@   option assume-nonnil-params true
+//@   modifies heap
+
+//@ func newMapMetaDataSlabFromDataV0  serves C19
+//@   option assume-nonnil-params true
+//@   modifies heap
+
+//@ func newMapMetaDataSlabFromDataV1  serves C19
+//@   option assume-nonnil-params true
+//@   modifies heap
+
+//@ func newElementsFromData  serves C19
+//@   option assume-nonnil-params true
+//@   modifies heap
+
+//@ func newElementFromData  serves C19
+//@   option assume-nonnil-params true
+//@   modifies heap
+
+//@ func newSingleElementFromData  serves C19
+//@   option assume-nonnil-params true
+//@   modifies heap
+
+//@ func newInlineCollisionGroupFromData  serves C19
+//@   option assume-nonnil-params true
+//@   modifies heap
+
+//@ func newExternalCollisionGroupFromData  serves C19
+//@   option assume-nonnil-params true
+//@   modifies heap
+
+//@ func newInlinedExtraDataFromData  serves C19
+//@   option assume-nonnil-params true
+//@   modifies heap
+
+//@ func newCompactMapExtraData  serves C19
+//@   option assume-nonnil-params true
+//@   modifies heap
+
+//@ func newArrayExtraData  serves C19
+//@   option assume-nonnil-params true
+//@   modifies heap
+
+//@ func newMapExtraDataFromData  serves C19
+//@   option assume-nonnil-params true
+//@   modifies heap
+
+//@ func newMapExtraData  serves C19
+//@   option assume-nonnil-params true
+//@   modifies heap
+
+//@ func NewSlabIDFromRawBytes  serves C19
+//@   option assume-nonnil-params true
+//@   modifies heap
+
+//@ func DecodeSlabIDStorable  serves C19
+//@   option assume-nonnil-params true
+//@   modifies heap
+
+//@ func decodeTypeInfoRefIfNeeded  serves C19
+//@   option assume-nonnil-params true
+//@   modifies heap
+
+//@ func decodeTypeInfoRefIfNeeded#1  serves C19
+//@   option assume-nonnil-params true
+//@   modifies heap
+
+//@ func IsRootOfAnObject  serves C19
+//@   option assume-nonnil-params true
+//@   modifies heap
+
+//@ func HasPointers  serves C19
+//@   option assume-nonnil-params true
+//@   modifies heap
+
+//@ func HasSizeLimit  serves C19
+//@   option assume-nonnil-params true
+//@   modifies heap
+
+//@ func newHeadFromData  serves C19
+//@   option assume-nonnil-params true
+//@   modifies heap
+
